@@ -43,7 +43,7 @@ static size_t m_nreq; static int m_freq;   /* most recently requested bucket cou
 static int m_forced_settled;
 static int m_budget, m_since;          /* a pending rehash must finish within as many keyed operations as there were buckets: budget (or -1), operations so far */          /* a forced rehash (rehash()/foreach()) happened after the last effective resize request */
 
-enum { O_INSERT = 1, O_ERASE, O_FIND, O_RESIZE, O_REHASH, O_SHRINK, O_SWAP, O_FOREACH, O_FOREACH_STOP, O_FOREACH_ERASE, O_CLEAR_CB, O_CLEAR_NULL, O_RESIZE0 };
+enum { O_INSERT = 1, O_ERASE, O_FIND, O_RESIZE, O_REHASH, O_SHRINK, O_SWAP, O_FOREACH, O_FOREACH_STOP, O_FOREACH_ERASE, O_CLEAR_CB, O_CLEAR_NULL, O_RESIZE0, O_FIND_RE, O_FOREACH_FIND };
 #define OP(c, a, b) ((mc_op_t)((c) | ((a) << 8) | ((b) << 16)))
 #define OC(o) ((o) & 0xff)
 #define OA(o) (((o) >> 8) & 0xff)
@@ -51,10 +51,10 @@ enum { O_INSERT = 1, O_ERASE, O_FIND, O_RESIZE, O_REHASH, O_SHRINK, O_SWAP, O_FO
 /* find modes (OB): 0 no visitor, 1 reject all, 2+j accept the j-th candidate */
 
 enum { K_KEYED_PENDING, K_KEYED_SETTLED, K_FINISHING_OP, K_RESIZE_WHILE_PENDING, K_RESIZE_BACK, K_FIND_DUP_VISITOR, K_ERASE_NONMEMBER, K_FOREACH_PENDING, K_FOREACHC_PENDING_GROW,
-       K_CLEAR_PENDING, K_CLEAR, K_FE_ERASE, K_GROW, K_SHRINK, K_FUNC_CHANGE };
+       K_CLEAR_PENDING, K_CLEAR, K_FE_ERASE, K_GROW, K_SHRINK, K_FUNC_CHANGE, K_REENTRANT };
 static const char *w_counter_names[] = { "keyed_ops_while_rehash_pending", "keyed_ops_settled", "keyed_ops_finishing_the_rehash", "resize_while_rehash_pending", "resize_back_to_current_geometry_while_pending",
     "find_with_visitor_on_duplicate_key", "erase_of_non_member", "foreach_while_pending", "foreach_const_audits_while_grow_pending", "clear_while_pending", "clear_applied", "foreach_erasing_visited",
-    "resize_grow", "resize_shrink", "resize_function_change", NULL };
+    "resize_grow", "resize_shrink", "resize_function_change", "visitors_looking_up_in_the_same_table", NULL };
 
 struct cfg { int n; int keys[MAXN]; int nc; int counts[8]; int nf; };
 static const struct cfg quick_cfgs[] = {
@@ -100,7 +100,8 @@ static void w_setup(int cfg, int thorough)
     for (i = 0; i < NCOUNTS; i++) for (f = 0; f <= NF; f++) w_ops[w_nops++] = OP(O_RESIZE, i, f);
     w_ops[w_nops++] = OP(O_RESIZE0, 0, 1);
     w_ops[w_nops++] = OP(O_REHASH, 0, 0); w_ops[w_nops++] = OP(O_SHRINK, 0, 0); w_ops[w_nops++] = OP(O_SWAP, 0, 0);
-    w_ops[w_nops++] = OP(O_FOREACH, 0, 0);
+    w_ops[w_nops++] = OP(O_FOREACH, 0, 0); w_ops[w_nops++] = OP(O_FOREACH_FIND, 0, 0);
+    for (k = 0; k < nalpha - 1; k++) w_ops[w_nops++] = OP(O_FIND_RE, k, 0);
     for (j = 0; j < N; j++) w_ops[w_nops++] = OP(O_FOREACH_STOP, j, 0);
     w_ops[w_nops++] = OP(O_FOREACH_ERASE, 255, 0);
     for (j = 0; j < N; j++) w_ops[w_nops++] = OP(O_FOREACH_ERASE, j, 0);
@@ -126,6 +127,8 @@ static int w_enabled(mc_op_t o)
     switch (OC(o)) {
     case O_INSERT: return m_resized && !m_member[OA(o)];
     case O_ERASE: case O_FIND: return m_resized;              /* keyed operations need buckets */
+    case O_FIND_RE: { int i, nk = 0; for (i = 0; i < N; i++) nk += m_member[i] && keys[i] == alpha[OA(o)]; return m_resized && nk >= 1; }
+    case O_FOREACH_FIND: return m_resized && m_count >= 2;
     case O_FOREACH_STOP: return OA(o) < (unsigned)m_count;
     case O_FOREACH_ERASE: return OA(o) == 255 ? m_count > 0 : OA(o) < (unsigned)m_count;
     default: return 1;
@@ -174,13 +177,29 @@ static void take_snap(const struct cstl_hash *h, struct snap *s)
 /* ---- callbacks ---- */
 static int v_seq[4 * MAXN + 8], v_n, v_stop_at, v_accept_at;
 static size_t v_key;
+/* a visit function that looks other elements up in the same table while it is being called (v_nested): plain lookups without a visit
+ * function, one per key of the alphabet.  Lookups of keys never move a node that carries the key being searched (both of its buckets
+ * were cleaned before the walk began) and never unlink a node, so the walk in progress must not notice. */
+static int v_nested, nested_bad, nested_calls;
+static void nested_lookups(void)
+{
+    int k, i;
+    for (k = 0; k < nalpha; k++) {
+        const void *r = cstl_hash_find(T, (size_t)alpha[k], NULL, NULL); int exp = 0, ri = r ? idx_of(r) : -1;
+        for (i = 0; i < N; i++) if (m_member[i] && keys[i] == alpha[k]) exp = 1;
+        nested_calls++;
+        if ((r != NULL) != exp || (r && (ri < 0 || !m_member[ri] || keys[ri] != alpha[k]))) nested_bad++;
+    }
+}
 static int cb_find(const void *e, void *p)
 {
     (void)p;
     if (v_n < 4 * MAXN + 8) v_seq[v_n] = idx_of(e);
     v_n++;
     if (v_n > 4 * MAXN) return 1;
-    return v_accept_at >= 0 && v_n == v_accept_at + 1;
+    if (v_nested) nested_lookups();
+    /* "nonzero: this one" -- acceptance is signalled with values of both signs */
+    return (v_accept_at >= 0 && v_n == v_accept_at + 1) ? ((v_n & 1) ? -1 : 3) : 0;
 }
 static int cb_count_c(const void *e, void *p)
 {
@@ -188,6 +207,7 @@ static int cb_count_c(const void *e, void *p)
     if (v_n < 4 * MAXN + 8) v_seq[v_n] = idx_of(e);
     v_n++;
     if (v_n > 4 * MAXN) return 9999;
+    if (v_nested) nested_lookups();
     if (v_stop_at >= 0 && v_n == v_stop_at + 1) return (v_stop_at & 1) ? -(v_stop_at + 1) : v_stop_at + 1;      /* stop values of both signs */
     return 0;
 }
@@ -329,15 +349,18 @@ static void w_apply(mc_op_t o)
         if (m_member[a]) { m_member[a] = 0; m_count--; }
         if (!ab && mc_checking) keyed_post("erase", a);
         break;
-    case O_FIND: {
-        int k = alpha[a], nk = 0, j;
+    case O_FIND: case O_FIND_RE: {
+        int k = alpha[a], nk = 0, j, re = OC(o) == O_FIND_RE;
+        if (re) { b = 1; v_nested = 1; nested_bad = nested_calls = 0; MC_COUNT(K_REENTRANT); }
         for (i = 0; i < N; i++) if (m_member[i] && keys[i] == k) nk++;
         if (b >= 1 && nk > 1) MC_COUNT(K_FIND_DUP_VISITOR);
         v_n = 0; v_accept_at = b >= 2 ? b - 2 : -1; v_key = (size_t)k;
-        if (mc_checking) keyed_pre();
+        if (mc_checking && !re) keyed_pre();
         SHIM_CALL(ab, rp = cstl_hash_find(T, (size_t)k, b == 0 ? NULL : cb_find, NULL));
+        v_nested = 0;
         if (ab) break;
-        if (mc_checking) keyed_post("find", -1);
+        if (mc_checking && !re) keyed_post("find", -1);
+        if (re) MC_CHECK(PC03, nested_bad == 0, "%d of %d lookups made from inside find's visit function gave a wrong answer", nested_bad, nested_calls);
         i = rp ? idx_of(rp) : -1;
         if (b == 0) {
             MC_CHECK(PC03, (rp != NULL) == (nk > 0), "find(key %d) returned %s, but %d live element(s) carry that key", k, rp ? "an element" : "NULL", nk);
@@ -399,12 +422,14 @@ static void w_apply(mc_op_t o)
         { size_t t_ = m_off[0]; m_off[0] = m_off[1]; m_off[1] = t_; }
         if (!ab && mc_checking) check_fresh(PC03, 1 - cur, "after swap with a never-resized table,");
         break;
-    case O_FOREACH: case O_FOREACH_STOP: case O_FOREACH_ERASE: {
+    case O_FOREACH: case O_FOREACH_STOP: case O_FOREACH_ERASE: case O_FOREACH_FIND: {
         int n0 = m_count, code = OC(o);
+        if (code == O_FOREACH_FIND) { v_nested = 1; nested_bad = nested_calls = 0; MC_COUNT(K_REENTRANT); }
         if (T->bucket.rh.hash != NULL) MC_COUNT(K_FOREACH_PENDING);
         if (code == O_FOREACH_ERASE) MC_COUNT(K_FE_ERASE);
         v_n = 0; v_stop_at = code == O_FOREACH_STOP ? a : -1; fe_which = a;
         SHIM_CALL(ab, r = cstl_hash_foreach(T, code == O_FOREACH_ERASE ? cb_erase : cb_count, NULL));
+        v_nested = 0;
         __asan_unpoison_memory_region(pool, sizeof pool);
         m_forced_settled = 1;
         if (ab) break;
@@ -413,7 +438,8 @@ static void w_apply(mc_op_t o)
             check_each_once(PC04, "foreach (stopped early)", a);
         } else {
             MC_CHECK(PC04, r == 0, "foreach returned %d with an always-zero visitor", r);
-            MC_CHECK(PC04, v_n == n0, "foreach%s made %d visits, the table holds %d elements", code == O_FOREACH_ERASE ? " (visitor erases the visited element)" : "", v_n, n0);
+            MC_CHECK(PC04, v_n == n0, "foreach%s made %d visits, the table holds %d elements", code == O_FOREACH_ERASE ? " (visitor erases the visited element)" : code == O_FOREACH_FIND ? " (visitor looks other elements up in the table)" : "", v_n, n0);
+            if (code == O_FOREACH_FIND) MC_CHECK(PC04 | PC03, nested_bad == 0, "%d of %d lookups made from inside foreach's visit function gave a wrong answer", nested_bad, nested_calls);
             check_each_once(PC04, "foreach", -1);
         }
         if (code == O_FOREACH_ERASE && !mc_branch_dead) {
@@ -444,7 +470,7 @@ static void w_apply(mc_op_t o)
     }
     if (!ab) {
         /* bounded completion: a pending rehash must be over after as many keyed operations as the table had buckets when it started */
-        int keyed = OC(o) == O_INSERT || OC(o) == O_ERASE || OC(o) == O_FIND;
+        int keyed = OC(o) == O_INSERT || OC(o) == O_ERASE || OC(o) == O_FIND || OC(o) == O_FIND_RE;
         if (keyed && m_budget >= 0) {
             m_since++;
             MC_CHECK(PC19, T->bucket.rh.hash == NULL || m_since < m_budget, "the rehash is still pending after %d keyed operations although the table had only %d buckets when it started", m_since, m_budget);
@@ -479,6 +505,16 @@ static void w_audit(void)
         SHIM_CALL(ab, r = cstl_hash_foreach_const(T, cb_count_c, NULL));
         MC_CHECK(PC04, !ab && r == ((j & 1) ? -(j + 1) : j + 1) && v_n == j + 1, "foreach_const with a visitor returning %d at visit #%d returned %d after %d visits", (j & 1) ? -(j + 1) : j + 1, j, r, v_n);
     }
+    /* with no rehash pending a lookup does not touch the table, so foreach_const's visit function may look elements up */
+    if (!s.pending && m_resized && m_count >= 2 && !mc_branch_dead) {
+        v_n = 0; v_stop_at = -1; v_nested = 1; nested_bad = nested_calls = 0;
+        SHIM_CALL(ab, r = cstl_hash_foreach_const(T, cb_count_c, NULL));
+        v_nested = 0;
+        MC_CHECK(PC04, !ab && r == 0 && v_n == m_count, "foreach_const whose visit function looks elements up (no rehash pending) made %d visits for %d elements", v_n, m_count);
+        check_each_once(PC04, "foreach_const (visitor looks elements up)", -1);
+        MC_CHECK(PC04 | PC03, nested_bad == 0, "%d of %d lookups made from inside foreach_const's visit function gave a wrong answer", nested_bad, nested_calls);
+        if (mc_branch_dead) return;
+    }
     /* the canonical model fields and the public struct agree about where the table is heading */
     if (m_resized) {
         size_t heading = s.pending ? s.rhcount : s.count;
@@ -495,7 +531,7 @@ static void canon_one(int t)
     struct snap s; size_t b;
     take_snap(h, &s);
     KB_C('T'); KB_C(h->bucket.at ? 'a' : '0'); KB_U(h->bucket.count); KB_C('/'); KB_U(h->bucket.capacity); KB_C('f'); KB_U((unsigned)fid(h->bucket.hash));
-    KB_C('n'); KB_U(h->count); KB_C('o'); KB_U(h->off);
+    KB_C('n'); KB_U(h->count); KB_C('o'); KB_U(h->off); KB_C(h->bucket.cst ? '+' : '-');       /* the table-wide clean bit survives clear: hidden state */
     if (s.pending) { KB_C('P'); KB_U(h->bucket.rh.count); KB_C('f'); KB_U((unsigned)fid(h->bucket.rh.hash)); KB_C('c'); KB_U(h->bucket.rh.clean); }
     if (s.bad) { KB_C('!'); return; }
     for (b = 0; b < s.bound; b++) {
@@ -527,6 +563,8 @@ static void w_opname(mc_op_t o, char *b, size_t n)
     case O_SHRINK: snprintf(b, n, "shrink_to_fit"); break;
     case O_SWAP: snprintf(b, n, "swap(table, never-resized table)"); break;
     case O_FOREACH: snprintf(b, n, "foreach(count)"); break;
+    case O_FOREACH_FIND: snprintf(b, n, "foreach(visitor looks every key up)"); break;
+    case O_FIND_RE: snprintf(b, n, "find(key %d, visitor rejects all and looks every key up)", alpha[OA(o)]); break;
     case O_FOREACH_STOP: snprintf(b, n, "foreach(stop at visit #%d)", OA(o)); break;
     case O_FOREACH_ERASE: if (OA(o) == 255) snprintf(b, n, "foreach(erase+free every visited)"); else snprintf(b, n, "foreach(erase+free visit #%d)", OA(o)); break;
     case O_CLEAR_CB: snprintf(b, n, "clear(counting+poisoning callback)"); break;
